@@ -158,6 +158,9 @@ type Action struct {
 	Imports []string `json:"imports,omitempty"` // import paths referenced through snippet.PkgExpose (rendered as `var _ <name>.X`)
 	Ret     string   `json:"ret,omitempty"`     // "", skip, ignore, wrapskip, wrapignore, error, panic, goexit, kill, exit
 	Defers  []Action `json:"defers,omitempty"`  // callbacks registered with Context.Defer (their Ret: "", error, panic, kill)
+	// Recovered: text rendered through a template that ends in an unbound name: the render panics after it
+	// yielded this text, and the generator recovers from the panic and carries on (a legal thing to do)
+	Recovered string `json:"render_that_panics_and_is_recovered,omitempty"`
 }
 
 // GenScript scripts one generator, identified by its fixed name.
@@ -234,6 +237,16 @@ func (in *inst) perform(c gengo.Context, gen string, a Action, typ string) error
 	}
 	if a.Render != "" {
 		c.Render(snippet.Block(subst(a.Render, typ, gen, pkgName)))
+	}
+	if a.Recovered != "" {
+		func() {
+			defer func() {
+				if recover() == nil {
+					panic("harness: the template with an unbound name did not panic")
+				}
+			}()
+			c.RenderT(subst(a.Recovered, typ, gen, pkgName)+"@unboundName\n", snippet.Arg("other", snippet.Block("")))
+		}()
 	}
 	for _, d := range a.Defers {
 		d := d
